@@ -3,8 +3,10 @@ CONSTANTS
   N = 5
   Ops <- AllOps
   Initials <- Init3
-  Replies <- AllReplies
+  Replies <- McReplies
   Mins <- MinsAll
+  ValClasses = {0, 1, 2, 3}
+  VModes = {1, 2}
   Orig = FALSE
 INVARIANTS AtMostOnce NoPanic Terminates ClosestTruthful ValueFromContacted AcceptedDistinct ErrIffBelowMin QueueSorted
 CHECK_DEADLOCK TRUE
